@@ -288,3 +288,73 @@ func isCompare(op token.Token) bool {
 	}
 	return false
 }
+
+// c06CommentEndBehindOpener: in lexer.acceptWS the search for "*/" starts at least two
+// characters behind the position where "/*" was found. Testing after one character
+// finds the end marker overlapping the opener: "/*/" is taken as a whole comment and
+// the text it was meant to comment out is read as statements.
+func c06CommentEndBehindOpener(ctx *core.Ctx, r *core.Report) {
+	f := ctx.Method("parser", "lexer", "acceptWS")
+	next := ctx.Method("parser", "lexer", "next")
+	if f == nil || next == nil {
+		r.Fatalf("anchors parser.lexer.acceptWS/next not found")
+		return
+	}
+	hasPrefixOf := func(text string) *ssa.Call {
+		var out *ssa.Call
+		for _, c := range core.CallSites(f) {
+			cal := core.StaticCallee(c)
+			if cal == nil || core.FnName(cal) != "strings.HasPrefix" {
+				continue
+			}
+			if s, ok := core.ConstString(c.Common().Args[1]); ok && s == text {
+				if cc, isCall := c.(*ssa.Call); isCall && out == nil {
+					out = cc
+				}
+			}
+		}
+		return out
+	}
+	start, end := hasPrefixOf("/*"), hasPrefixOf("*/")
+	if start == nil || end == nil {
+		r.Fatalf("parser.lexer.acceptWS: the tests for the comment markers were not recognised")
+		return
+	}
+	var entry *ssa.BasicBlock
+	for _, ref := range *start.Referrers() {
+		if ifi, ok := ref.(*ssa.If); ok {
+			entry = ifi.Block().Succs[0]
+		}
+	}
+	if entry == nil || !(entry == end.Block() || entry.Dominates(end.Block())) {
+		r.Fatalf("parser.lexer.acceptWS: the comment branch was not recognised")
+		return
+	}
+	// characters consumed on the way from the branch to the first end test: the blocks
+	// that lie on the dominator chain of the test, below the branch
+	adv := int64(0)
+	for _, b := range f.Blocks {
+		if !(b == entry || entry.Dominates(b)) || !(b == end.Block() || b.Dominates(end.Block())) {
+			continue
+		}
+		for _, in := range b.Instrs {
+			if in == ssa.Instruction(end) {
+				break
+			}
+			if c, ok := in.(*ssa.Call); ok && core.StaticCallee(c) == next {
+				adv++
+			}
+			if st, ok := in.(*ssa.Store); ok {
+				if fa, isFa := st.Addr.(*ssa.FieldAddr); isFa && faName(fa) == "pos" {
+					if bo, isBo := st.Val.(*ssa.BinOp); isBo && bo.Op == token.ADD {
+						if k, isC := core.ConstInt(bo.Y); isC && k > 0 {
+							adv += k
+						}
+					}
+				}
+			}
+		}
+	}
+	r.Ob("comment-end-behind-opener", "parser.lexer.acceptWS/block-comment", ctx.Pos(end.Pos()), adv >= 2,
+		fmt.Sprintf("the first test for \"*/\" is made %d character(s) behind the start of \"/*\": the end marker can overlap the opener, \"/*/\" counts as a whole comment and the commented-out text is read as statements", adv))
+}
